@@ -198,6 +198,17 @@ class Server:
             self.stream.feed(sse_event(None if self.bare else "message", json.dumps(resp, ensure_ascii=False), self.framing))
             await asyncio.sleep(d)
             return httpx.Response(202)
+        if m in ("event_note_then_202", "event_note_later_then_202"):
+            # the answer is on the event stream before the 202, and the server writes something else right behind it
+            # (same write, or a moment later but still before the 202): what was written first is delivered first
+            behind = {"jsonrpc": "2.0", "method": "notifications/message", "params": {"level": "info", "data": f"right-behind-answer-{rid}"}}
+            self.behind = getattr(self, "behind", []) + [behind]
+            self.stream.feed(sse_event(None if self.bare else "message", json.dumps(resp, ensure_ascii=False), self.framing))
+            if m == "event_note_later_then_202":
+                await asyncio.sleep(d / 2)
+            self.stream.feed(sse_event(None if self.bare else "message", json.dumps(behind, ensure_ascii=False), self.framing))
+            await asyncio.sleep(d)
+            return httpx.Response(202)
         if m in ("event_then_200_body", "event_then_500", "event_then_exception"):
             # the answer is already on the event stream when the POST completes - and it does not complete with 202
             self.stream.feed(sse_event(None if self.bare else "message", json.dumps(resp, ensure_ascii=False), self.framing))
@@ -261,7 +272,7 @@ REQUEST_MODES = ["200_body", "200_error_body", "202_then_event", "event_then_202
                  "status_404_json", "status_400_jsonrpc", "exception", "read_timeout", "200_garbage",
                  "200_json_object_nonrpc", "200_json_array_nonrpc", "400_nullid_error",
                  "server_request_same_id_then_200_body", "server_request_same_id_then_202_event",
-                 "event_then_500", "event_then_exception"]   # (event + 200 body = a server answering twice: not a stated mode)
+                 "event_then_500", "event_then_exception", "event_note_then_202", "event_note_later_then_202"]   # (event + 200 body = a server answering twice: not a stated mode)
 IDS = [1, 0, "abc", "123", 2**53 + 1, "", -1]
 
 
@@ -700,6 +711,18 @@ def exec_case(ctx, case: Dict[str, Any]) -> None:
                     mech = "duplicate_terminal_message"
                 ctx.violation(mech, f"request id {rid!r} mode {req['mode']}: {len(mine)} terminal messages on the read stream "
                               f"(all: {[g[:2] for g in msgs]})", case)
+            if req["mode"].startswith("event_note"):
+                marker = f"right-behind-answer-{rid}"
+                pos_note = [k for k, (_, m_) in enumerate(obs["got"]) if getattr(m_, "method", None) == "notifications/message"
+                            and (getattr(m_, "params", None) or {}).get("data") == marker]
+                pos_ans = [k for k, g in enumerate(msgs) if g[0] in ("response", "error") and g[1] == tagged(rid)]
+                if len(pos_note) != 1:
+                    ctx.violation("event_stream_message_lost" if not pos_note else "event_stream_message_duplicated",
+                                  f"the notification written right behind the answer to {rid!r} was delivered {len(pos_note)} times", case)
+                elif pos_ans and pos_note[0] < pos_ans[0]:
+                    ctx.violation("event_stream_message_altered_or_reordered", f"request {rid!r} ({req['mode']}): the server wrote the "
+                                  f"answer and then a notification; the read stream delivered the notification first "
+                                  f"({[g[:3] for g in msgs]})", case)
             if req["mode"].startswith("server_request_same_id"):
                 sreq = [g for g in msgs if g[0] == "request" and g[1] == tagged(rid)]
                 if len(sreq) != 1:
